@@ -112,7 +112,7 @@ def handleEarcut (inp out : List String) : String :=
     | some o =>
       let mt := earcutTriangles mi.vertices o.idx
       let same := o.verts == mi.vertices && mt == some o.tris
-      let cnt := p.count
+      let cnt := (dedupRings p).count
       let prop :=
         if !(o.idx.all (· < cnt)) then "FAIL:engine-index-out-of-range"
         else if o.idx.length % 3 != 0 then "FAIL:engine-index-count-not-multiple-of-three"
